@@ -23,7 +23,7 @@ def tasks(tier, seed):
                                 'cut off at every offset in [%d, %d), then opened, read to the end and closed' % (
                                     lvl, cs, 'initial all-zero statistics' if hi else 'final', lo, lo + step),
                            reach=('h_trunc:end',), bounds='4 objects; every truncation offset',
-                           kinds={'assert', 'memory', 'uncaught_exception', 'terminate', 'deadlock', 'hang', 'limit'}))
+                           kinds={'assert', 'memory', 'uncaught_exception', 'terminate', 'deadlock', 'hang', 'limit', 'leak'}))
     meta = dict(
         level='model_checking',
         explanation='A valid file is produced by the real writer inside the symbolic run; for EVERY truncation offset (complete '
